@@ -48,8 +48,8 @@ def c02_jobs(tier):
             sizes += [65535, 65536] if W[k] == 1 else [65536]
         for b in sizes:
             jobs.append(J("hsms", "ZZ_C02_boundary", kind=k, n=(b + W[k] - 1) // W[k], fuel=2_000_000_000, timeout_s=7200))
-    for n in [300, 70000, 16777215]:  # the last one puts a 1 in the top byte of the message length
-        jobs.append(J("hsms", "ZZ_C02_bigmessage", n=n, heavy=(1 if n > 500000 else 0), fuel=8_000_000_000, timeout_s=7200))
+    for n, parts in [(300, 1), (70000, 1), (16777215, 1), (40000, 3), (9000000, 2)]:  # top byte of the message length = 1; a list whose children add up to more than one item may hold
+        jobs.append(J("hsms", "ZZ_C02_bigmessage", n=n, parts=parts, decode=0, heavy=(1 if n > 500000 else 0), fuel=16_000_000_000, timeout_s=7200))
     return jobs
 
 
@@ -59,6 +59,9 @@ def c01_jobs(tier):
     # the item header for EVERY size (harness shared with C13): items of exactly 16,777,215 bytes included
     jobs += [J("ast", "ZZ_C13_header", typ=t) for t in range(14)]
     jobs += [J("sml", "ZZ_C01_sml", which=w) for w in range(3)]
+    # a message whose list holds two 9 MB items (more bytes than any single item may have) survives the round trip
+    jobs.append(J("hsms", "ZZ_C02_bigmessage", n=9000000, parts=2, decode=1, heavy=1, fuel=32_000_000_000, timeout_s=7200))
+    jobs.append(J("hsms", "ZZ_C02_bigmessage", n=40000, parts=3, decode=1))
     if tier == "quick":
         jobs += [J("hsms", "ZZ_C01_tree", depth=2, width=2, menu=2, maxn=1)]
         bsizes = [255, 256, 257]
@@ -170,6 +173,7 @@ def c16_jobs(tier):
     # a variable-free item of ANY size encodes: the header function never reports an error within the limit (harness shared with C13)
     jobs += [J("ast", "ZZ_C13_header", typ=t) for t in range(14)]
     jobs += [J("ast", "ZZ_C16_dupfill", which=w) for w in range(5)]
+    jobs += [J("ast", "ZZ_C16_message", kind=k, wrap=w) for k in range(10) for w in (0, 1, 2)]
     jobs += [J("ast", "ZZ_C16_ascii", k=k) for k in ([0, 1, 2, 3] if tier == "quick" else [0, 1, 2, 3, 4, 5])]
     return jobs
 
@@ -196,6 +200,9 @@ def c10_jobs(tier):
 def c11_jobs(tier):
     jobs = [J("hsms", "ZZ_C11_alias", scn=i, h=0) for i in range(11)]
     jobs += [J("hsms", "ZZ_C11_alias", scn=12, h=0, kind=k, n=n) for k in range(14) for n in ((0, 1, 2) if k else (0,))]
+    jobs += [J("hsms", "ZZ_C11_alias", scn=13, h=0)]
+    jobs += [J("hsms", "ZZ_C11_alias", scn=14, h=0, kind=k) for k in range(7)]
+    jobs += [J("hsms", "ZZ_C11_alias", scn=15, h=0, kind=k) for k in range(3)]
     jobs += [J("hsms", "ZZ_C11_alias", scn=11, h=h, timeout_s=(1500 if tier == "quick" else 7200)) for h in ([1, 2] if tier == "quick" else [1, 2, 3])]
     return jobs
 
@@ -417,7 +424,7 @@ def c12_jobs(tier):
     jobs += [J("ast", "ZZ_C12_ellipsis", which=6, k=k) for k in ([0, 1, 2, 3] if tier == "quick" else [0, 1, 2, 3, 4, 5])]
     jobs += [J("ast", "ZZ_C12_ellipsis", which=7, k=k, order=o) for k in range(6) for o in range(5)]
     jobs += [J("ast", "ZZ_C12_dupnames", which=i) for i in range(6)]
-    jobs += [J("ast", "ZZ_C12_message", which=i) for i in range(3)]
+    jobs += [J("ast", "ZZ_C12_message", which=i) for i in (0, 1, 2, 4)]
     jobs += [J("ast", "ZZ_C12_message", which=3, k=k) for k in ([0, 1, 2, 3] if tier == "quick" else [0, 1, 2, 3, 4, 5])]
     return jobs
 
